@@ -114,9 +114,12 @@ def _dataclass_parameters(class_: Class) -> list[tuple[str, Parameter | None]]:
                 continue
 
             # Determine parameter kind.
+            # An explicit `kw_only` argument of `field()` takes precedence
+            # over the `kw_only` decorator argument and the `KW_ONLY` marker.
+            field_kw_only = field_args.get("kw_only")
             kind = (
                 ParameterKind.keyword_only
-                if kw_only or field_args.get("kw_only") == "True"
+                if (kw_only if field_kw_only is None else field_kw_only == "True")
                 else ParameterKind.positional_or_keyword
             )
 
